@@ -244,6 +244,8 @@ def exec_gradient(case):
 
 
 def execute(case):
+    if case.get("_") == "font" or "kind" not in case:  # a state of the font-level lattice (replay)
+        return font_level(case)
     if case["kind"] == "matrix":
         from vmc.drive import inproc
 
@@ -251,6 +253,17 @@ def execute(case):
         fp, v = check_matrix(tuple(case["m"]))
         return [bad(v[0], v[1])] if v else [ok("C16.matrix", fp)]
     return exec_gradient(case)
+
+
+def font_level(dev):
+    from vmc.props import c01
+
+    out = []
+    for v in c01.execute({k_: v_ for k_, v_ in dev.items() if k_ != "_"}):
+        v = dict(v)
+        v["clause"] = v["clause"].replace("C01.", "C16.font-level-")
+        out.append(v)
+    return out
 
 
 def run(report, tier, only=None):
@@ -266,11 +279,24 @@ def run(report, tier, only=None):
     if only in (None, "gradient"):
         cases = [{"kind": "gradient", "g": gi, "A": list(A)} for gi in range(len(gradient_geometries())) for A in GRAD_AFFINES]
         listing.run(report, cases, execute, timeout=120)
+    if only in (None, "font"):
+        # font level: the transforms nanoemoji itself puts into a paint tree when it reuses shapes (placing transform on the outline,
+        # compensating transform on the gradient, split into uniform part + residual, the wrap-instead-of-bake route when the baked
+        # geometry would overflow) -- every state of the sub-lattice is a real build whose picture must equal the source's
+        from vmc.core import lattice
+        from vmc.gen import scenes
+        from vmc.oracles import selftest
+        from vmc.props import c01
+
+        selftest.run(report)
+        dims = {k_: scenes.DIMS[k_] for k_ in ("place", "copy_paint", "user", "lin_gt", "rad_gt", "rad_geom", "lin_vec", "where", "vb_b")}
+        lattice.explore(report, dims, 2 if tier == "quick" else 3, font_level, relevant=scenes.relevant, timeout=300, tag="font")
     report.rule = (
         "full products of boundary alphabets: (i) b=c=0, a,d over 40 scale values x e,f over 30 translation values (quick: <=3 entries off identity); "
         "(ii) general matrices over 8 values per entry (invertible, b or c non-zero); every matrix through paint.transformed: the emitted chain's matrix "
         "(oracle's own formulas) must equal the input, and compiled+decompiled by fontTools it must raise or equal the input within fixed-point "
         "precision; (iii) 8 gradient geometries x ~390 affines through apply_transform / _decompose_uniform_transform, colours compared at 25 "
-        "corresponding points; distinct = emitted paint format (+ raises)"
+        "corresponding points; (iv) font level: E1 over placement x paint of the copy x user transform x gradient transforms x units (<=2 deviations quick, <=3 thorough), "
+        "real builds whose COLRv1 picture must equal the source (the transforms nanoemoji emits when it reuses shapes); distinct = emitted paint format (+ raises)"
     )
     report.assumptions += ["fontTools raises on out-of-range Fixed/F2Dot14/FWORD fields (measured), so a silent wrap can only come from nanoemoji's own choice of encoding"]
